@@ -856,7 +856,11 @@ impl HandlerRunner {
             return;
         };
         match self.ledger.outstanding_chal.remove(&(at, cd)) {
-            None => out.push(format!("!MON C03 handshake-accepted-for-consumed-or-foreign-challenge node={} cd={}", at, cd)),
+            None => {
+                out.push(format!("!MON C03 handshake-accepted-for-consumed-or-foreign-challenge node={} cd={}", at, cd));
+                // (C01: an identity counts as proven only against a fresh challenge of this node)
+                out.push(format!("!MON C01 identity-accepted-without-fresh-challenge node={} cd={}", at, cd));
+            }
             Some((armed_at, _, chal_addr)) => {
                 // the challenge went to one address; only a handshake from there answers it
                 if let Some(from) = self.cur_from {
@@ -892,8 +896,10 @@ impl HandlerRunner {
         let sealers: Vec<u64> = self.ledger.sealed.iter().filter(|((_, pt), _)| pt == encoded).map(|(_, who)| *who).collect();
         if sealers.is_empty() {
             out.push(format!("!MON C02 delivered-message-never-sealed node={} from={}", at, c));
+            out.push(format!("!MON C01 message-attributed-to-a-peer-that-never-sealed-it node={} claimed={}", at, c));
         } else if !sealers.contains(&c) {
             out.push(format!("!MON C02 delivered-message-not-sealed-by-claimed-peer node={} claimed={} sealed-by={:?}", at, c, sealers));
+            out.push(format!("!MON C01 message-attributed-to-a-peer-that-never-sealed-it node={} claimed={} sealed-by={:?}", at, c, sealers));
         }
     }
 
@@ -1670,6 +1676,39 @@ pub fn gen_case(rng: &mut Rng, tier: &str, profile: &str, stats: &mut Stats) -> 
         return ops;
     }
     let adversarial = profile == "C01" || profile == "C02" || profile == "C03" || rng.chance(1, 2);
+    if (profile == "C01" || profile == "C02") && !dual_redirect && rng.chance(1, 5) {
+        // directed prefix: a session is re-keyed by a genuine exchange (the peer could not read a
+        // damaged request and challenged it), traffic flows under the new keys, and then a request
+        // sealed under the all-zero key arrives from the peer's address; once more after a further re-key
+        stats.bump("gen.cases.directed-zero-key-after-rekey");
+        let x = rng.range(1, n);
+        let y = other(rng, x);
+        ops.push(format!("hreq {} {} enr {} 1", x, y, rid)); rid += 1;
+        ops.push("hdel next".into());
+        ops.push(format!("hwru {} next known", y));
+        for _ in 0..2 { ops.push("hdel next".into()); }
+        ops.push(format!("hresp {} next auto", y));
+        ops.push("hdel next".into());
+        for _ in 0..2 {
+            ops.push(format!("hreq {} {} enr {} {}", x, y, rid, rng.range(1, 4))); rid += 1;
+            ops.push(format!("hmut next flip {}", 600 + rng.below(100)));
+            ops.push("hdel last".into());
+            // neither the original nor (again) the damaged copy arrives later
+            ops.push("hdel skip".into());
+            ops.push("hdel skip".into());
+            ops.push(format!("hwru {} next known", y));
+            for _ in 0..2 { ops.push("hdel next".into()); }
+            ops.push(format!("hresp {} next auto", y));
+            ops.push("hdel next".into());
+        }
+        // forgeries only now (an undecryptable datagram makes its receiver ask its application who
+        // the sender is, which would disturb the script above): first at the node that re-keyed twice
+        for (victim, claimed) in [(x, y), (y, x)] {
+            ops.push(format!("hcraft zerokey {} {} {}", claimed, victim, rng.range(1, 4)));
+            ops.push("hdel last".into());
+        }
+        emitted += 8;
+    }
     if profile == "C02" && rng.chance(1, 3) {
         // directed prefix: the handshake that answers a WHOAREYOU (and carries the node's record)
         // is replaced in flight by a copy with bytes appended behind the record inside the
@@ -1702,34 +1741,6 @@ pub fn gen_case(rng: &mut Rng, tier: &str, profile: &str, stats: &mut Stats) -> 
         ops.push(format!("hresp {} next auto", y));
         ops.push("hdel next".into());
         emitted += 4;
-    }
-    if (profile == "C01" || profile == "C02") && !dual_redirect && rng.chance(1, 5) {
-        // directed prefix: a session is re-keyed by a genuine exchange (the peer could not read a
-        // damaged request and challenged it), traffic flows under the new keys, and then a request
-        // sealed under the all-zero key arrives from the peer's address; once more after a further re-key
-        stats.bump("gen.cases.directed-zero-key-after-rekey");
-        let x = rng.range(1, n);
-        let y = other(rng, x);
-        ops.push(format!("hreq {} {} enr {} 1", x, y, rid)); rid += 1;
-        ops.push("hdel next".into());
-        ops.push(format!("hwru {} next known", y));
-        for _ in 0..2 { ops.push("hdel next".into()); }
-        ops.push(format!("hresp {} next auto", y));
-        ops.push("hdel next".into());
-        for _ in 0..rng.range(1, 2) {
-            ops.push(format!("hreq {} {} enr {} {}", x, y, rid, rng.range(1, 4))); rid += 1;
-            ops.push(format!("hmut next flip {}", 600 + rng.below(100)));
-            ops.push("hdel last".into());
-            ops.push("hdel skip".into());
-            ops.push(format!("hwru {} next known", y));
-            for _ in 0..2 { ops.push("hdel next".into()); }
-            ops.push(format!("hresp {} next auto", y));
-            ops.push("hdel next".into());
-            let (victim, claimed) = if rng.chance(1, 2) { (x, y) } else { (y, x) };
-            ops.push(format!("hcraft zerokey {} {} {}", claimed, victim, rng.range(1, 4)));
-            ops.push("hdel last".into());
-        }
-        emitted += 8;
     }
     if profile == "C03" && !dual_redirect && rng.chance(1, 6) {
         // directed prefix: the handshake answering a challenge arrives with a damaged message body
